@@ -32,7 +32,9 @@ class TrackObs(Observer):
                 if sg and sg.get('axial_positions') and a.has_rodded:
                     self.grid_truth.append(
                         ([float(x) for x in sg['axial_positions']],
-                         sg.get('loss_coeff')))
+                         sg.get('loss_coeff'),
+                         str(sg.get('corr') or '').upper(),
+                         sg.get('solidity'), sg.get('corr_coeff')))
                 else:
                     self.grid_truth.append(None)
         self.exact = int(bool(exact))
@@ -63,7 +65,16 @@ class TrackObs(Observer):
         if self.grid_truth is not None and \
                 self.grid_truth[ai][1] is not None:
             return float(self.grid_truth[ai][1])
-        # from a correlation (its value is C12's subject)
+        # the Cigarini - Dalle Donne correlation with its published
+        # coefficients and the solidity of the input, written out: the drag
+        # coefficient times solidity squared, capped at 2
+        gt = self.grid_truth[ai] if self.grid_truth is not None else None
+        if gt is not None and len(gt) > 4 and gt[2] == 'CDD' and \
+                gt[3] is not None and gt[4] is None:
+            Re = float(rr.coolant_int_params['Re'])
+            cv = 3.5 + 73.14 * Re ** -0.264 + 2.79e10 * Re ** -2.79
+            return min(cv * float(gt[3]) ** 2.0, 2.0)
+        # from another correlation (its value is C12's subject)
         return float(rr.coolant_int_params.get('grid_loss_coeff', 0.0))
 
     def on_asm(self, ai, asm, pre, dz, t_gap, h_gap, power, adiabatic):
